@@ -59,7 +59,11 @@ def exc_sig(ex):
 
 
 def log_outcomes(seam):
-    return [[e["site"], e["kind"], e["k"], e["out"], e["ctx"]] for e in seam.log]
+    """draw outcomes for digests: sorted, because the order in which the code under test visits *simultaneous*
+    choice points (e.g. the transfers of candidates elected together) follows set iteration order"""
+    import json
+
+    return sorted(([e["site"], e["kind"], e["k"], e["out"], e["ctx"]] for e in seam.log), key=lambda x: json.dumps(x, sort_keys=True, default=str))
 
 
 def trim_log(seam, limit=40):
